@@ -35,6 +35,13 @@ func (c *chunkReader) Read(p []byte) (int, error) {
 	return n, nil
 }
 
+type collect struct{ code slip.Code }
+
+func (c *collect) Call(s *slip.Scope, args slip.List, depth int) slip.Object {
+	c.code = append(c.code, args[0])
+	return nil
+}
+
 func objs(code slip.Code) string {
 	var parts []string
 	for _, o := range code {
@@ -75,10 +82,48 @@ func main() {
 		"#\\Space x", "#xff 12", "'(a b)", "(a . b)", "#(1 2 3)", "\"a\\nb\" y", "(setq x 1) 'y", "; comment\nfoo", "#*10110 z", "3/4 1.5e3 -7",
 		"(quote (nested (deeper (list 1 2 3))))", "`(a ,b ,@c)", "#'car x", "(defun f (x) (* x x))",
 	}
+	texts = append(texts, "(a bt c) at t nil NIL ni", "\"esc\\\"aped\\n\" \"plain\" x", "#\\a #\\Newline #\\u0041 b", "#b1011 #o17 #36rzz 9", "#2A((1 2) (3 4)) q",
+		"|a\\|b| |x y|z", "#| block |# after", "(1 . (2 . (3)))", "#C(1 2) w", "'#(a \"s\" #\\x) e", ",x", "`(,@a ,b)", "\"\" || ()", "1.5d0 2.5s0 1/2 -0 +5 .5 e")
 	var fails []Failure
+	each := &collect{}
+	for _, t := range texts {
+		// the per-form entry points deliver the same objects as the whole read
+		whole0, werr0 := try(func() slip.Code { return slip.ReadString(t, slip.NewScope()) })
+		for _, n := range []int{1, 3} {
+			each.code = each.code[:0]
+			cut, cerr := try(func() slip.Code {
+				slip.ReadStreamEach(&chunkReader{data: []byte(t), n: n}, slip.NewScope(), each)
+				return each.code
+			})
+			if whole0 != cut || (werr0 == "") != (cerr == "") {
+				fails = append(fails, Failure{"each", t, n, whole0 + " " + werr0, cut + " " + cerr})
+			}
+		}
+		// one-form mode: the same first form and the same end position however the bytes arrive
+		var wpos int
+		one, oerr := try(func() slip.Code { c, p := slip.ReadOne([]byte(t), slip.NewScope()); wpos = p; return c })
+		for _, n := range []int{1, 2, 5} {
+			var cpos int
+			cut, cerr := try(func() slip.Code {
+				c, p := slip.ReadStream(&chunkReader{data: []byte(t), n: n}, slip.NewScope(), true)
+				cpos = p
+				return c
+			})
+			if one != cut || (oerr == "") != (cerr == "") || (oerr == "" && wpos != cpos) {
+				fails = append(fails, Failure{"one", t, n, fmt.Sprintf("%s @%d %s", one, wpos, oerr), fmt.Sprintf("%s @%d %s", cut, cpos, cerr)})
+			}
+		}
+		if oerr == "" && one != "" && wpos <= len(t) {
+			// the reported position is where the form ends: the text up to it reads as that form, and not one byte less
+			again, aerr := try(func() slip.Code { return slip.ReadString(t[:wpos], slip.NewScope()) })
+			if aerr != "" || again != one {
+				fails = append(fails, Failure{"position", t, 0, fmt.Sprintf("%s @%d", one, wpos), again + " " + aerr})
+			}
+		}
+	}
 	for _, t := range texts {
 		whole, werr := try(func() slip.Code { return slip.ReadString(t, slip.NewScope()) })
-		for _, n := range []int{1, 2, 3, 4, 5, 7} {
+		for _, n := range []int{1, 2, 3, 4, 5, 7, 11} {
 			cut, cerr := try(func() slip.Code {
 				code, _ := slip.ReadStream(&chunkReader{data: []byte(t), n: n}, slip.NewScope())
 				return code
